@@ -354,7 +354,7 @@ pub fn action_part_strategy(opts: RuleOpts) -> BoxedStrategy<ActionPart> {
         codes,
         0u8..5,
         prop::collection::vec((0u8..6, 0u8..3), 0..=2),
-        0u8..6,
+        0u8..8,
         pickw(vec![(4, None), (1, Some(true)), (2, Some(false))]),
         tri(2),
         tri(2),
@@ -384,6 +384,8 @@ pub fn body_filter_json(kind: u8, id: &str) -> Option<Value> {
         3 => Some(json!({"action": "append_child", "value": format!("<i>{id}</i>"), "inner_value": null, "element_tree": ["html", "body"], "css_selector": null, "id": format!("bf-{id}"), "target_hash": format!("th-{id}")})),
         4 => Some(json!({"action": "prepend_child", "value": format!("<b>{id}</b>"), "inner_value": format!("{id}"), "element_tree": ["html", "head"], "css_selector": "", "id": null, "target_hash": null})),
         5 => Some(json!({"action": "replace", "value": format!("<title>{id}</title>"), "inner_value": null, "element_tree": ["html", "head", "title"], "css_selector": null, "id": format!("bf-{id}"), "target_hash": "title"})),
+        6 => Some(json!({"action": "append_text", "content": format!("\u{e9}\"\\\n<{id}>\u{1f918}"), "id": null, "target_hash": null})),
+        7 => Some(json!({"action": "append_child", "value": format!("<meta name=\"d\" content=\"{id} \u{e9}\">"), "inner_value": format!("{id} \u{e9}"), "element_tree": ["html", "head"], "css_selector": "meta[name=\"d\"]", "id": format!("bf-{id}"), "target_hash": "meta-d"})),
         _ => None,
     }
 }
